@@ -2,6 +2,7 @@ import WM.Lemmas.ColumnsVar
 import WM.Lemmas.ColumnsFixed
 import WM.Lemmas.ColumnsRef
 import WM.Lemmas.ColumnsMisc
+import WM.Lemmas.ColumnsSeg
 /-!
 # C08 — stored values and column values come back unchanged for the right document
 
@@ -480,3 +481,215 @@ theorem fixedwidth_roundtrip (k : Nat) (hk : 0 < k) (db : Bytes) (hdb : db.lengt
   | some x => rfl
 
 end WM.C08
+
+namespace WM.C08
+open WM.Columns
+
+/-- **Merge, on the model of `write_per_doc`.**  The column copy of a segment merge reads the old
+    segment's column at every live document (`cols[f][docnum]`, here any reader `read` that shows
+    `cell default adds`, e.g. one of the column readers above) and adds the value for the next new
+    document number.  The adds it produces are `mergedAdds` (increasing, within the new document
+    count), so the new column round-trips by the theorems above and shows, for its `j`-th
+    document, the old value of the `j`-th live document.  A segment without the column file
+    (`has_column` false) contributes no adds: every row of the new column is the default. -/
+theorem merge_model {α : Type} (default : α) (adds : List (Nat × α)) (live : List Nat)
+    (read : Nat → Except Err α) (hread : ∀ d ∈ live, read d = .ok (cell default adds d)) :
+    mergeColumnAdds true read 0 live = .ok (mergedAdds default adds live) ∧
+    mergeColumnAdds false read 0 live = .ok [] ∧
+    Increasing (mergedAdds default adds live) ∧ Within (mergedAdds default adds live) live.length ∧
+    (∀ j, (h : j < live.length) → cell default (mergedAdds default adds live) j = cell default adds live[j]) ∧
+    (∀ j, cell default ([] : List (Nat × α)) j = default) :=
+  ⟨mergeColumnAdds_ok read (cell default adds) live 0 hread, mergeColumnAdds_none read live 0,
+    (merge default adds live).1, (merge default adds live).2.1, (merge default adds live).2.2, fun _ => rfl⟩
+
+/-- The same, composed for `VarBytesColumn` end to end: write the old column, merge-copy it
+    through its reader, write the new column, read it. -/
+theorem merge_varbytes (allow : Bool) (cutoff : Nat) (adds : List (Nat × Bytes)) (doccount : Nat)
+    (live : List Nat) (hinc : Increasing adds) (hwithin : Within adds doccount)
+    (hsize : totalBytes adds < 4294967296) (hlive : ∀ d ∈ live, d < doccount)
+    (hsize2 : totalBytes (mergedAdds [] adds live) < 4294967296) :
+    ∃ old madds new, varWrite allow cutoff adds doccount = .ok old ∧
+      mergeColumnAdds true (varRead old doccount) 0 live = .ok madds ∧
+      varWrite allow cutoff madds live.length = .ok new ∧
+      ∀ j, (h : j < live.length) → varRead new live.length j = .ok (cell [] adds live[j]) := by
+  obtain ⟨old, hw, hr⟩ := varbytes_roundtrip allow cutoff adds doccount hinc hwithin hsize
+  obtain ⟨h1, _, h3, h4, h5, _⟩ := merge_model ([] : Bytes) adds live (varRead old doccount)
+    (fun d hd => hr d (hlive d hd))
+  obtain ⟨new, hw2, hr2⟩ := varbytes_roundtrip allow cutoff (mergedAdds [] adds live) live.length h3 h4 hsize2
+  exact ⟨old, _, new, hw, h1, hw2, fun j hj => by rw [hr2 j hj, h5 j hj]⟩
+
+/-- **MultiColumnReader, value read.**  With one reader per segment (the segment's rows, or an
+    `EmptyColumnReader` for a segment without the column file — the repaired
+    `MultiReader.column_reader`), global document `d` reads the `d`-th row of the concatenation of
+    the segments' rows, a segment without the column counting as `doc_count_all` default rows. -/
+theorem multi_value {α : Type} (default : α) (segs : List (SegCol α)) (d : Nat)
+    (hd : d < (segs.map SegCol.len).sum) :
+    ∃ v, multiGet default segs d = .ok v ∧ ((segs.map (SegCol.expand default)).flatten)[d]? = some v := by
+  obtain ⟨i, c, o, hloc, hc, ho, hle, hlt⟩ := multi (segs.map SegCol.len) d hd
+  have hi : i < segs.length := by
+    have := (List.getElem?_eq_some_iff.mp hc).1; simpa using this
+  have hseg : segs[i]? = some segs[i] := List.getElem?_eq_getElem hi
+  have hclen : c = segs[i].len := by
+    simp only [List.getElem?_map, hseg, Option.map_some, Option.some.injEq] at hc; exact hc.symm
+  obtain ⟨v, hget, hexp⟩ := SegCol.get_expand default segs[i] (d - o) (by rw [← hclen]; exact hlt)
+  refine ⟨v, by simp only [multiGet, hloc, hseg, hget], ?_⟩
+  have hoff : o = (((segs.map (SegCol.expand default)).take i).map List.length).sum := by
+    rw [deriveOffsets_getElem? 0 _ i (by simpa using hi)] at ho
+    simp only [Nat.zero_add, Option.some.injEq] at ho
+    rw [← ho, ← List.map_take, ← List.map_take]
+    simp only [List.map_map]
+    congr 1
+    apply List.map_congr_left
+    intro s _
+    simp [expand_length]
+  have := flatten_getElem?_offset (segs.map (SegCol.expand default)) i (d - o) (segs[i].expand default)
+    (by simp [hseg]) (by rw [expand_length, ← hclen]; exact hlt)
+  rw [← hoff, show o + (d - o) = d by omega] at this
+  rw [this, hexp]
+
+/-- **Stored fields, field by field.**  Documents `0, 1, 2, …`, each a set of keyword arguments
+    with distinct field names: `stored_fields(d)` (through the `_stored` pickle column, `None → {}`)
+    is the dict `add_document`/`add_field` build for document `d`, and looking a name up in it
+    gives the supplied value of a *stored* field — the `_stored_<name>` override when one was
+    passed — and nothing for fields that are not stored, not supplied, or overridden with `None`
+    (`specStored`).  A document whose dict is empty reads `{}`. -/
+theorem stored_fields {α : Type} (ser : List (String × α) → Bytes) (de : Bytes → List (String × α))
+    (hrt : ∀ x, de (ser x) = x) (hne : ∀ x, ser x ≠ [])
+    (docs : List (List (FieldIn α))) (hnames : ∀ fs ∈ docs, (fs.map (·.name)).Nodup)
+    (hsize : totalBytes (pickleAdds ser ((perDocAdds (docs.map storedValue)).map fun p => (p.1, some p.2)))
+      < 4294967296) :
+    ∃ file, varWrite true 32768
+        (pickleAdds ser ((perDocAdds (docs.map storedValue)).map fun p => (p.1, some p.2))) docs.length
+        = .ok file ∧
+      ∀ d, (hd : d < docs.length) →
+        (varRead file docs.length d).map (fun v => (pickleGet de v).getD [])
+          = .ok (storedDict docs[d]) ∧
+        ∀ name, ((storedDict docs[d]).find? (fun kv => kv.1 == name)).map (·.2) = specStored docs[d] name := by
+  obtain ⟨file, hw, hr⟩ := stored ser de [] hrt hne (docs.map storedValue) hsize
+  rw [List.length_map] at hw
+  refine ⟨file, hw, fun d hd => ⟨?_, fun name => storedDict_lookup docs[d] (hnames _ (List.getElem_mem hd)) name⟩⟩
+  have := hr d (by rw [List.length_map]; exact hd)
+  simp only [List.length_map, List.getElem_map] at this
+  rw [this]
+  simp only [storedValue]
+  by_cases he : (storedDict docs[d]).isEmpty = true
+  · simp only [he, if_true, Option.getD_none]
+    cases hsd : storedDict docs[d] with
+    | nil => rfl
+    | cons a l => rw [hsd] at he; simp at he
+  · simp [he]
+
+/-- `fixedwidth_roundtrip` without the elision caveat: when every add the writer takes for the
+    default really has the default's bytes (true for `StructColumn`, whose test never fires, and
+    for numbers whose `==` coincides with equality of the packed bytes — not for `-0.0 == 0.0`),
+    the bytes read are the bytes supplied. -/
+theorem fixedwidth_roundtrip_exact (k : Nat) (hk : 0 < k) (db : Bytes) (hdb : db.length = k) (chk : Bool)
+    (adds : List (Nat × Bool × Bytes)) (hinc : Increasing adds) (hw : ∀ p ∈ adds, p.2.2.length = k)
+    (hexact : ∀ p ∈ adds, p.2.1 = true → p.2.2 = db) :
+    ∃ w, FixW.addAll k db chk {} adds = .ok w ∧
+      ∀ d, fixGet k db w.out d = cell db (adds.map fun p => (p.1, p.2.2)) d := by
+  obtain ⟨w, h1, h2⟩ := fixedwidth_roundtrip k hk db hdb chk adds hinc hw
+  refine ⟨w, h1, fun d => ?_⟩
+  rw [h2 d]
+  simp only [cell]
+  rw [lookup_map (fun x : Bool × Bytes => x.2) adds d]
+  cases hl : lookup adds d with
+  | none => rfl
+  | some x =>
+    obtain ⟨isd, vb⟩ := x
+    simp only [Option.map_some, Option.getD_some]
+    cases isd with
+    | false => rfl
+    | true =>
+      have hmem : ∃ p ∈ adds, p.2 = (true, vb) := by
+        unfold lookup at hl
+        cases hf : adds.find? (fun p => p.1 == d) with
+        | none => simp [hf] at hl
+        | some p => simp [hf] at hl; exact ⟨p, List.mem_of_find?_eq_some hf, hl⟩
+      obtain ⟨p, hp, hpe⟩ := hmem
+      have := hexact p hp (by rw [hpe])
+      rw [hpe] at this
+      simp only at this
+      simp [this]
+
+/-- `FixedBytesListColumn` end to end (through the wrapped `VarBytesColumn`). -/
+theorem fixedbyteslist_roundtrip (k : Nat) (hk : 0 < k) (adds : List (Nat × List Bytes)) (doccount : Nat)
+    (hinc : Increasing adds) (hwithin : Within adds doccount)
+    (hlen : ∀ p ∈ adds, ∀ v ∈ p.2, v.length = k)
+    (hsize : totalBytes (adds.map fun p => (p.1, p.2.flatten)) < 4294967296) :
+    (∀ p ∈ adds, encodeFixList k p.2 = .ok p.2.flatten) ∧
+    ∃ file, varWrite true 32768 (adds.map fun p => (p.1, p.2.flatten)) doccount = .ok file ∧
+      ∀ d, d < doccount →
+        (varRead file doccount d).map (decodeFixList k) = .ok (cell [] adds d) := by
+  refine ⟨fun p hp => (decodeFixList_encode k hk p.2 (hlen p hp)).1, ?_⟩
+  have hinc' : Increasing (adds.map fun p => (p.1, p.2.flatten)) := increasing_map List.flatten adds hinc
+  have hwithin' : Within (adds.map fun p => (p.1, p.2.flatten)) doccount := by
+    intro p hp
+    simp only [List.mem_map] at hp
+    obtain ⟨q, hq, rfl⟩ := hp
+    exact hwithin q hq
+  obtain ⟨file, hw, hr⟩ := varbytes_roundtrip true 32768 _ doccount hinc' hwithin' hsize
+  refine ⟨file, hw, fun d hd => ?_⟩
+  rw [hr d hd]
+  simp only [Except.map, cell]
+  rw [lookup_map List.flatten adds d]
+  cases hl : lookup adds d with
+  | none => rfl
+  | some ls =>
+    have hmem : ∃ p ∈ adds, p.2 = ls := by
+      unfold lookup at hl
+      cases hf : adds.find? (fun p => p.1 == d) with
+      | none => simp [hf] at hl
+      | some p => simp [hf] at hl; exact ⟨p, List.mem_of_find?_eq_some hf, hl⟩
+    obtain ⟨p, hp, rfl⟩ := hmem
+    simp [(decodeFixList_encode k hk p.2 (hlen p hp)).2]
+
+/-! Non-vacuity of the hypotheses of the theorems above. -/
+
+example : Increasing ([(1, [7, 7]), (4, [0, 0])] : List (Nat × Bytes)) ∧
+    (∀ p ∈ ([(1, [7, 7]), (4, [0, 0])] : List (Nat × Bytes)), p.2.length = 2) ∧
+    cell [0, 0] ([(1, [7, 7]), (4, [0, 0])] : List (Nat × Bytes)) 4 = [0, 0] := by
+  refine ⟨by simp [Increasing], ?_, by decide⟩
+  intro p hp
+  simp only [List.mem_cons, List.not_mem_nil, or_false] at hp
+  rcases hp with rfl | rfl <;> rfl
+
+example : Increasing ([(0, -128), (3, 127)] : List (Nat × Int)) ∧
+    (NumCode.b.lo ≤ (0 : Int) ∧ (0 : Int) ≤ NumCode.b.hi) ∧
+    (∀ p ∈ ([(0, -128), (3, 127)] : List (Nat × Int)), NumCode.b.lo ≤ p.2 ∧ p.2 ≤ NumCode.b.hi) := by
+  refine ⟨by simp [Increasing], by decide, ?_⟩
+  intro p hp
+  simp only [List.mem_cons, List.not_mem_nil, or_false] at hp
+  rcases hp with rfl | rfl <;> decide
+
+example : bitGet (bitWrite 2048 [(9, true), (3, false)]) 9 = true ∧
+    bitGet (bitWrite 2048 [(9, true), (3, false)]) 3 = false ∧ Increasing [(3, false), (9, true)] := by
+  refine ⟨by decide, by decide, by simp [Increasing]⟩
+
+example : Increasing ([(0, some 5), (2, none)] : List (Nat × Option Nat)) ∧
+    Within ([(0, some 5), (2, none)] : List (Nat × Option Nat)) 3 ∧
+    pickleAdds (fun n : Nat => [n + 1]) [(0, some 5), (2, none)] = [(0, [6]), (2, [])] := by
+  refine ⟨by simp [Increasing], ?_, by decide⟩
+  intro p hp
+  simp only [List.mem_cons, List.not_mem_nil, or_false] at hp
+  rcases hp with rfl | rfl <;> simp
+
+example :
+    let doc : List (FieldIn Nat) :=
+      [⟨"a", some 1, none, true⟩, ⟨"b", some 2, some (some 9), true⟩, ⟨"c", some 3, none, false⟩,
+       ⟨"d", none, none, true⟩, ⟨"e", some 5, some none, true⟩]
+    (doc.map (·.name)).Nodup ∧ storedDict doc = [("a", 1), ("b", 9)] ∧
+      specStored doc "b" = some 9 ∧ specStored doc "c" = none ∧ specStored doc "e" = none ∧
+      perDocAdds [storedValue doc, storedValue ([] : List (FieldIn Nat))] = [(0, [("a", 1), ("b", 9)])] := by
+  intro doc
+  refine ⟨by decide, by decide, by decide, by decide, by decide, by decide⟩
+
+example : Increasing ([(0, [[1], [2, 3]]), (2, [])] : List (Nat × List Bytes)) ∧
+    decodeVarList (encodeVarList [[1], [2, 3]]) = some [[1], [2, 3]] := by
+  refine ⟨by simp [Increasing], decodeVarList_encode _⟩
+
+example : multiGet (0 : Nat) [.rows [5, 6], .empty 2, .rows [7]] 3 = .ok 0 ∧
+    multiGet (0 : Nat) [.rows [5, 6], .empty 2, .rows [7]] 4 = .ok 7 := ⟨rfl, rfl⟩
+
+end WM.C08
+
